@@ -10,6 +10,7 @@ import (
 	"hash/fnv"
 	"net"
 	"net/http"
+	"slices"
 	"sort"
 	"sync"
 	"time"
@@ -121,8 +122,10 @@ func NewPeerPool(cfg PeerPoolConfig) (*PeerPool, error) {
 		allPeers = append(allPeers, cfg.NodeID)
 	}
 
-	// Sort peers for consistent hashing
+	// Sort peers for consistent hashing and drop duplicate entries: RemovePeer
+	// removes a single occurrence, so a peer listed twice could never be removed.
 	sort.Strings(allPeers)
+	allPeers = slices.Compact(allPeers)
 
 	logger := cfg.Logger
 	if logger == nil {
